@@ -1,3 +1,5 @@
+import Driver.IterData
+import Driver.Seq
 import Driver.Slice
 import Driver.Tree
 import Driver.Xdr
